@@ -333,3 +333,44 @@ pub fn orth_defect(a: &Mat, k: usize) -> f64 {
     }
     worst
 }
+
+/// Singular values by one-sided (Hestenes) Jacobi: accurate to high *relative* precision
+/// even for ill-conditioned input. Returned in non-increasing order.
+pub fn singular_values(a: &Mat) -> Vec<f64> {
+    let (m, n) = (a.r, a.c);
+    let mut u = if m >= n { a.clone() } else { a.t() };
+    let (m, n) = (m.max(n), m.min(n));
+    for _sweep in 0..60 {
+        let mut rotated = false;
+        for p in 0..n {
+            for q in p + 1..n {
+                let (mut alpha, mut beta, mut gamma) = (0.0, 0.0, 0.0);
+                for i in 0..m {
+                    alpha += u.at(i, p) * u.at(i, p);
+                    beta += u.at(i, q) * u.at(i, q);
+                    gamma += u.at(i, p) * u.at(i, q);
+                }
+                if gamma == 0.0 || gamma.abs() <= 1e-15 * (alpha * beta).sqrt() {
+                    continue;
+                }
+                rotated = true;
+                let zeta = (beta - alpha) / (2.0 * gamma);
+                let t = zeta.signum() / (zeta.abs() + (1.0 + zeta * zeta).sqrt());
+                let t = if zeta == 0.0 { 1.0 } else { t };
+                let c = 1.0 / (1.0 + t * t).sqrt();
+                let s = c * t;
+                for i in 0..m {
+                    let (x, y) = (u.at(i, p), u.at(i, q));
+                    u.set(i, p, c * x - s * y);
+                    u.set(i, q, s * x + c * y);
+                }
+            }
+        }
+        if !rotated {
+            break;
+        }
+    }
+    let mut sv: Vec<f64> = (0..n).map(|j| norm2(&u.col(j))).collect();
+    sv.sort_by(|a, b| b.partial_cmp(a).unwrap());
+    sv
+}
